@@ -145,6 +145,7 @@ func init() {
 			s1job("modules", 4, []string{"C10"}, 2, budget),
 			s1job("components-ids", 3, []string{"C10"}, 2, budget),
 		}
+		jobs = append(jobs, s2sharded("c07-join-lastleave-create", b, budget, 8)...)
 		for _, blk := range []string{"c10-eadd-eadd", "c10-join-join", "c10-tadd-same", "c10-tadd-other", "c10-asset-asset", "c07-create-vs-create", "c09-first-joins"} {
 			jobs = append(jobs, s2job(blk, b, budget))
 			// the same schedules in the -race build: an id source that is not
